@@ -240,7 +240,7 @@ def plan_rules(ctx, I):
             ctx.report('C16.R4b', where, 'sweep for clockwise=%s, theta %s' % (cw, '<0' if neg else '>=0'),
                        'sweep is %r, expected %r (counter-clockwise sweeps lie in [0, 2pi), clockwise ones in [-2pi, 0))' % (travel, want))
         ctx.sample({'rule': 'C16', 'samples': len(el) // 2, 'clockwise': cw, 'travel': repr(travel)[:80]})
-    if n_ok == 0:
+    if n_ok == 0 and not ctx.findings:
         raise AnalysisError('planArc: no path with intermediate samples could be analysed')
 
 
